@@ -61,7 +61,13 @@ class Chooser(object):
 
     def __init__(self, seed=0, mode="random", p_switch=0.2, replay=None, pct_depth=3, est_len=2000, hold_at=None):
         Chooser.LAST = self
-        self.hold_at = tuple(hold_at) if hold_at else None     # "holdat" mode: (tid, k) = suspend thread tid at its k-th hot yield
+        # "holdat" mode: (tid, k) = suspend thread tid at its k-th hot yield; a list of such pairs places several suspensions (they are
+        # released oldest first, each time every other thread is blocked or suspended)
+        if hold_at and isinstance(hold_at[0], (list, tuple)):
+            self.hold_ats = set((int(a), int(b)) for (a, b) in hold_at)
+        else:
+            self.hold_ats = {(int(hold_at[0]), int(hold_at[1]))} if hold_at else set()
+        self.hold_at = tuple(hold_at) if hold_at else None
         self.hot_count = {}
         self.rng = random.Random(seed)
         self.mode = mode
@@ -116,7 +122,7 @@ class Chooser(object):
             if hot and cur_tid in runnable:
                 n = self.hot_count.get(cur_tid, 0) + 1
                 self.hot_count[cur_tid] = n
-                if self.hold_at == (cur_tid, n) and len(runnable) > 1:
+                if (cur_tid, n) in self.hold_ats and len(runnable) > 1:
                     self.held.append(cur_tid)
             cands = [t for t in runnable if t not in self.held]
             if not cands:
